@@ -243,22 +243,28 @@ def extract():
     # translate_literal
     g = read(GENEXPR)
     mg = mask(g)
-    # translate_literal = the verification hook `literal` (cfg prqlc_verif: logs the literal received, the two dialect answers
-    # consulted and the SQL text returned) around translate_literal_inner, which is the modelled function.
+    # translate_literal begins with the verification hook `literal` (commit f5c0fad): a cfg(prqlc_verif) block that, behind a
+    # thread-local re-entrancy flag, runs the function once more on a clone, logs the literal received, the two dialect answers
+    # consulted and the SQL text returned, and returns that result.  The rest of the body is the modelled function.
     # A tree without the hook fails closed here: the correspondence stream `literal-hook` depends on it.
     s, e = block_after(g, mg, r"fn\s+translate_literal\b[^{]*\{")
-    want_hook = ('#[cfg(prqlc_verif)] let verif_in = l.clone(); let res = translate_literal_inner(l, ctx); #[cfg(prqlc_verif)] log::debug!( "verif:literal {}", '
+    mh = re.match(r"\s*#\[cfg\(prqlc_verif\)\]\s*if\s+!verif_literal::ACTIVE\.with\(\|a\| a\.replace\(true\)\)\s*\{", mg[s:e])
+    if not mh:
+        raise ExtractError("translate_literal does not begin with the verification hook `literal` (hooks/literal.diff not applied, or changed)")
+    ho = s + mh.end() - 1
+    hc = match_brace(mg, ho)
+    want_hook = ('let verif_in = l.clone(); let res = translate_literal(l, ctx); verif_literal::ACTIVE.with(|a| a.set(false)); log::debug!( "verif:literal {}", '
                  'serde_json::json!({ "lit": verif_in, "f64_bits": match &verif_in { Literal::Float(f) => Some(format!("{:016x}", f.to_bits())), _ => None, }, '
                  '"sqlite": ctx.dialect.is::<crate::sql::dialect::SQLiteDialect>(), "bs": ctx.dialect.string_literal_backslash_escape(), '
-                 '"out": res.as_ref().ok().map(|e| e.to_string()), }) ); res')
-    if norm(g[s:e]) != want_hook:
-        raise ExtractError("translate_literal is not the verification hook `literal` around translate_literal_inner (hooks/literal.diff not applied, or changed)")
-    if not re.search(r"\n(pub\(super\) )?fn translate_literal_inner\(l: Literal, ctx: &Context\) -> Result<sql_ast::Expr> \{", g):
-        raise ExtractError("translate_literal_inner: signature changed")
+                 '"out": res.as_ref().ok().map(|e| e.to_string()), }) ); return res;')
+    if norm(g[ho + 1:hc]) != want_hook:
+        raise ExtractError("the body of the verification hook `literal` in translate_literal changed")
+    if not re.search(r"#\[cfg\(prqlc_verif\)\]\s*mod verif_literal \{\s*thread_local! \{\s*pub static ACTIVE: std::cell::Cell<bool> = const \{ std::cell::Cell::new\(false\) \};\s*\}\s*\}", g):
+        raise ExtractError("module verif_literal (re-entrancy flag of the hook) changed")
     info["hook_literal"] = True
-    s, e = block_after(g, mg, r"fn\s+translate_literal_inner\b[^{]*\{")
+    s = hc + 1
     if not re.fullmatch(r"\s*Ok\(match\s+l\s*\{.*\}\)\s*", mg[s:e], re.S):
-        raise ExtractError("translate_literal_inner is no longer a single `Ok(match l { ... })`")
+        raise ExtractError("translate_literal (after the hook) is no longer a single `Ok(match l { ... })`")
     inner_span = (s, e)
     s2, e2 = block_after(g[s:e], mg[s:e], r"Ok\(match\s+l\s*\{")
     arms = dict((norm(p), norm(b)) for p, b in match_arms(g[s:e], mg[s:e], s2, e2))
